@@ -119,7 +119,7 @@ func corrShow(c *vh.Ctx) {
 		if answers[i] != k.want {
 			c.Fail(vh.Failure{Kind: "correspondence", What: "Lean showE and Program.String() print an expression differently",
 				Case: map[string]interface{}{"tokens": strings.Join(k.toks, " "), "src": "BEGIN { " + tokText(k.toks) + " }", "request": reqs[i]},
-				Got: "model: " + answers[i], Want: "real: " + k.want})
+				Got:  "model: " + answers[i], Want: "real: " + k.want})
 		}
 	}
 }
